@@ -178,6 +178,175 @@ class Sib:
         self.ctx.ob(rule, construct, ok, msg, fi)
         return ok
 
+    # ------------------------------------------------------------ holomorphy
+    _CONJ = ("conj", "conjugate", "vdot", "real", "imag", "abs", "absolute", "angle", "norm")
+
+    def holomorphy(self, prefixes: Tuple[str, ...]):
+        """HOLO-1.  <psi_T| ... |phi> is linear in the walker's orbitals, so every mixed estimator (overlap, Green's
+        function, overlap ratio, local energy, force bias) is a *holomorphic* function of the walker: no complex
+        conjugation, real / imaginary part, modulus or phase may be applied to a walker-dependent quantity inside it
+        (walkers become complex after the first propagation step; a conjugated walker gives the right answer for real
+        walkers only).  Checked on the value graph of every trial class's methods whose name starts with one of
+        `prefixes`, helpers inlined; the walker is identified by the parameter names of the trial API."""
+        from ..symex import array_fn, call_parts, strip_wrappers, subterms
+        from .match import m_method
+        p = self.p
+        n_fn = 0
+        bad: List[Tuple[object, str]] = []
+        for cname, ci in sorted(p.classes.items()):
+            if not cname.startswith(W):
+                continue
+            for mname, fi in sorted(ci.methods.items()):
+                if not any(mname.startswith(pr) for pr in prefixes) or fi.is_abstract:
+                    continue
+                wp = [x.name for x in fi.params if x.name.startswith("walker")]
+                if not wp:
+                    continue
+                try:
+                    e = self.E(cname[len(W):], mname)
+                except AnalysisError:
+                    continue
+                if e.result is None:
+                    continue
+                n_fn += 1
+                ws = {sym(w_) for w_ in wp}
+                memo: Dict[int, bool] = {}
+
+                def dep(t, memo=memo, ws=ws):
+                    return any(x in ws for x in subterms(t))
+
+                for x in subterms(e.result):
+                    hit = None
+                    if x.op == "call":
+                        fn = array_fn(x)
+                        if fn in self._CONJ:
+                            args = call_parts(x)[1]
+                            args = args[:1] if fn == "vdot" else args
+                            if any(dep(y) for y in args):
+                                hit = fn
+                        m = m_method(x, "conj", "conjugate")
+                        if m is not None and dep(m[0]):
+                            hit = ".conj()"
+                    elif x.op == "attr" and x.args[1] in ("real", "imag", "H") and dep(x.args[0]):
+                        hit = "." + x.args[1]
+                    if hit:
+                        bad.append((fi, f"{cname[len(W):]}.{mname}: {hit} applied to {show(x)[:90]}"))
+        if n_fn == 0:
+            raise AnalysisError("HOLO-1: no trial estimator with a walker parameter found (anchor vanished)")
+        self.ctx.ob("HOLO-1", f"trial estimators ({', '.join(prefixes)}*): no conjugation / real part / modulus of a "
+                    f"walker-dependent quantity", not bad,
+                    f"{n_fn} methods evaluated" + ("; " + "; ".join(b[1] for b in bad[:4]) if bad else ""),
+                    bad[0][0] if bad else self.p.lookup_method(W + "wave_function", "calc_overlap") or None)
+
+    # ------------------------------------------------- all Cholesky vectors
+    def cholesky_axis_complete(self, prefixes: Tuple[str, ...]):
+        """CAP-1.  The two-body part of every estimator is a sum over *all* Cholesky vectors.  A partial slice of the
+        vector axis of ham_data['chol'] / ['rot_chol'] (chol[:k], e.g. to make the count divisible by a chunk size) is
+        allowed only together with its complement chol[k:]; otherwise the trailing vectors silently drop out."""
+        from ..symex import strip_wrappers, subterms
+        from .match import strip_reshape
+        p = self.p
+        n_fn, bad = 0, []
+        roots = {key(HD, "chol"), key(HD, "rot_chol")}
+
+        def is_chol(t) -> bool:
+            t = strip_reshape(t)
+            if t in roots:
+                return True
+            return t.op == "getitem" and t.args[1].op == "const" and strip_reshape(t.args[0]) in roots
+
+        for cname, ci in sorted(p.classes.items()):
+            if not cname.startswith(W):
+                continue
+            for mname, fi in sorted(ci.methods.items()):
+                if not any(mname.startswith(pr) for pr in prefixes) or fi.is_abstract:
+                    continue
+                try:
+                    e = self.E(cname[len(W):], mname)
+                except AnalysisError:
+                    continue
+                if e.result is None:
+                    continue
+                n_fn += 1
+                heads, tails = [], []
+                for x in subterms(e.result):
+                    if x.op != "getitem" or not is_chol(x.args[0]):
+                        continue
+                    ix = x.args[1]
+                    if ix.op == "tuple" and ix.args:
+                        ix = ix.args[0]
+                    if ix.op != "slice" or len(ix.args) < 2:
+                        continue
+                    lo, hi = ix.args[0], ix.args[1]
+                    lo_none = not hasattr(lo, "op") or (lo.op == "const" and lo.args[0] in (None, 0))
+                    hi_none = not hasattr(hi, "op") or (hi.op == "const" and hi.args[0] is None)
+                    if lo_none and not hi_none:
+                        heads.append(hi)
+                    elif hi_none and not lo_none:
+                        tails.append(lo)
+                for h in heads:
+                    if not any(t is h for t in tails):
+                        bad.append((fi, f"{cname[len(W):]}.{mname}: vectors [:{show(h)[:60]}] are used, the rest never"))
+        if n_fn == 0:
+            raise AnalysisError("CAP-1: no estimator found (anchor vanished)")
+        self.ctx.ob("CAP-1", f"trial estimators ({', '.join(prefixes)}*): the Cholesky-vector axis is never truncated",
+                    not bad, f"{n_fn} methods evaluated" + ("; " + "; ".join(b[1] for b in bad[:3]) if bad else ""),
+                    bad[0][0] if bad else None)
+
+    # ------------------------------------------- trial data seen by both entries
+    # components of wave_data the unrestricted routine reads and the restricted one legitimately does not
+    _RESTRICTED_SKIPS = {
+        ("multislater", ("ref_det", 1)): "restricted walkers have one spin block; the restricted multi-Slater path is "
+                                         "written for equal alpha / beta reference strings and reads ref_det[0] only",
+    }
+
+    @staticmethod
+    def _trial_components(t: T) -> set:
+        """maximal constant-index paths rooted at wave_data that a value depends on: ('mo_coeff', 1), ('ci1',) ..."""
+        from ..symex import subterms
+        out = set()
+        for x in subterms(t):
+            if x.op == "getitem" and x.args[1].op == "const":
+                path, y = [], x
+                while y.op == "getitem" and y.args[1].op == "const":
+                    path.append(y.args[1].args[0])
+                    y = y.args[0]
+                if y is WD:
+                    out.add(tuple(reversed(path)))
+        return {a for a in out if not any(b != a and b[:len(a)] == a for b in out)}
+
+    def restricted_consumes_trial_data(self, which: str):
+        """SIB-2 (dependence form).  A class that writes its own restricted entry point next to an unrestricted one
+        describes the same trial state in both: every component of wave_data the unrestricted routine depends on
+        (e.g. both spin blocks of the trial orbitals) must also reach the restricted result.  A restricted shortcut
+        that drops a component is exact only for trials where that component is redundant."""
+        p = self.p
+        n = 0
+        for cname, ci in sorted(p.classes.items()):
+            if not cname.startswith(W):
+                continue
+            a = ci.methods.get(f"_calc_{which}_restricted")
+            b = p.lookup_method(cname, f"_calc_{which}")
+            if a is None or b is None or a.is_abstract or b.is_abstract:
+                continue
+            short = cname[len(W):]
+            try:
+                ea, eb = self.E(short, f"_calc_{which}_restricted"), self.E(short, f"_calc_{which}")
+            except AnalysisError:
+                continue
+            if ea.result is None or eb.result is None:
+                continue
+            ca, cb = self._trial_components(ea.result), self._trial_components(eb.result)
+            if not cb or not ca:
+                continue          # one of the two is a refusal / does not read the trial data at all
+            n += 1
+            missing = sorted((c for c in cb - ca if (short, c) not in self._RESTRICTED_SKIPS), key=str)
+            self.ctx.ob("SIB-2", f"{short}: _calc_{which}_restricted depends on every trial component _calc_{which} does",
+                        not missing, f"restricted reads {sorted(ca, key=str)}; unrestricted reads {sorted(cb, key=str)}"
+                        + (f"; dropped {missing}" if missing else ""), a)
+        if n == 0:
+            self.ctx.rep.note(f"SIB-2 (trial components, {which}): no class implements both entry points itself")
+
     # ------------------------------------------------------------------ rhf
     def rhf_restricted_vs_unrestricted(self, which: str):
         hyp = {sym("walker_up"): sym("walker"), sym("walker_dn"): sym("walker")}
@@ -318,6 +487,34 @@ class Sib:
         self.cmp("SYM-1", "noci._get_trans_rdm1_single_det: the down-spin transition density mirrors the up-spin one",
                  getitem(r, const(0)), getitem(r, const(1)), e.fi, None, hyp_b=sw,
                  what="component 0 with up <-> dn == component 1")
+
+    def noci_rdm1_weights(self):
+        """SYM-1 (dependence form).  <psi|a+_p a_q|psi> of a NOCI state weights every pair of determinants with
+        c_h c_g <h|g>, and <h|g> is the product of the up *and* the down overlap: each spin block of the 1-RDM
+        therefore depends on the determinants of both spin sectors."""
+        from ..symex import strip_wrappers, subterms
+        e = self.E("noci", "_calc_rdm1")
+        r = strip_wrappers(e.result) if e.result is not None else None
+        if r is not None and r.op == "call" and r.args:
+            from ..symex import call_parts
+            a_ = call_parts(r)[1]
+            r = strip_wrappers(a_[0]) if a_ else r
+        if r is None or r.op not in ("list", "tuple") or len(r.args) != 2:
+            self.ctx.rep.note("noci._calc_rdm1: result is not a two-block display; spin-dependence rule not applicable")
+            return
+        dets = key(WD, "ci_coeffs_dets", 1)
+        bad = []
+        seen = []
+        for s_ in (0, 1):
+            used = {k_ for k_ in (0, 1) if any(y is getitem(dets, const(k_)) for y in subterms(r.args[s_]))}
+            seen.append(sorted(used))
+            if used and (1 - s_) not in used:
+                bad.append(f"block {s_} reads only the spin-{s_} determinants")
+        if not any(seen):
+            self.ctx.rep.note("noci._calc_rdm1: determinant blocks not identified; spin-dependence rule not applicable")
+            return
+        self.ctx.ob("SYM-1", "noci._calc_rdm1: each spin block is weighted with the full (up x down) pair overlaps",
+                    not bad, "; ".join(bad) or f"blocks read determinant sectors {seen}", e.fi)
 
     # ------------------------------------------------------ CI flavours (C01)
     def ci_flavours_overlap(self):
